@@ -36,7 +36,7 @@ Definition uto_bytes_be (u : list Z) : outcome (list Z) :=
   do v <- uto_bytes_le u; Ret (rev v).
 
 (** to_u32_digits = iter_u32_digits().collect(), to_u64_digits = iter_u64_digits().collect() *)
-Definition uto_u32_digits (u : list Z) : outcome (list Z) := it_collect (it_new u).
+Definition uto_u32_digits (ip : iter_params) (u : list Z) : outcome (list Z) := it_collect ip (it_new ip u).
 Definition uto_u64_digits (u : list Z) : list Z := u.
 
 (** * BigInt constructors *)
@@ -57,8 +57,8 @@ Definition ito_bytes_le (x : bigint) : outcome (sign * list Z) :=
   do v <- uto_bytes_le (mag x); Ret (sg x, v).
 Definition ito_bytes_be (x : bigint) : outcome (sign * list Z) :=
   do v <- uto_bytes_be (mag x); Ret (sg x, v).
-Definition ito_u32_digits (x : bigint) : outcome (sign * list Z) :=
-  do v <- uto_u32_digits (mag x); Ret (sg x, v).
+Definition ito_u32_digits (ip : iter_params) (x : bigint) : outcome (sign * list Z) :=
+  do v <- uto_u32_digits ip (mag x); Ret (sg x, v).
 Definition ito_u64_digits (x : bigint) : sign * list Z := (sg x, uto_u64_digits (mag x)).
 
 (** * Two's complement and the signed-bytes forms *)
